@@ -4,10 +4,12 @@
 package main
 
 import (
+	"bytes"
 	"flag"
 	"fmt"
 	"go/ast"
 	"go/parser"
+	"go/printer"
 	"go/token"
 	"os"
 	"path/filepath"
@@ -175,6 +177,28 @@ func exprString(e ast.Expr) string {
 	return "?"
 }
 
+// render prints an expression as source text
+func render(e ast.Expr) string {
+	var b bytes.Buffer
+	printer.Fprint(&b, fset, e)
+	return strings.Join(strings.Fields(b.String()), " ")
+}
+
+// argString: like exprString, with the receiver's method calls spelled out
+func argString(e ast.Expr) string {
+	if c, ok := e.(*ast.CallExpr); ok {
+		var as []string
+		for _, a := range c.Args {
+			as = append(as, argString(a))
+		}
+		return exprString(c.Fun) + "(" + strings.Join(as, ", ") + ")"
+	}
+	if b, ok := e.(*ast.BasicLit); ok {
+		return b.Value
+	}
+	return exprString(e)
+}
+
 func lstr(xs []string) string {
 	q := make([]string, len(xs))
 	for i, x := range xs {
@@ -326,7 +350,10 @@ func main() {
 	w("def vectorAccumulators : List String := %s", lstr(switchCases(funcDecl(find(files, "execution/aggregate/vector_table.go"), "newVectorAccumulator"))))
 
 	// go statements and whether the started function recovers
-	type site struct{ where, what string; rec bool }
+	type site struct {
+		where, what string
+		rec         bool
+	}
 	var sites []site
 	for _, f := range files {
 		decls := map[string]*ast.FuncDecl{}
@@ -481,6 +508,195 @@ func main() {
 		}
 	}
 	w("def execCancelsOnReturn : Bool := %s", lbool(execCancels))
+
+	// appends whose result does not go back into their own first argument and whose first argument
+	// is not a fresh or capacity-capped slice: the only appends that can write into memory the
+	// function does not own (a label set handed out by the storage, a slice of the plan)
+	var foreign []string
+	for _, f := range files {
+		if !(strings.HasPrefix(f.path, "execution/") || strings.HasPrefix(f.path, "engine/") || strings.HasPrefix(f.path, "logicalplan/") ||
+			strings.HasPrefix(f.path, "query/") || strings.HasPrefix(f.path, "worker/") || strings.HasPrefix(f.path, "api/")) {
+			continue
+		}
+		for _, d := range f.ast.Decls {
+			fd, ok := d.(*ast.FuncDecl)
+			if !ok || fd.Body == nil {
+				continue
+			}
+			// variables that (may) share their array with something the function did not create:
+			// slice-typed parameters, and locals initialised from a plain reference to something else
+			alias := map[string]bool{}
+			if fd.Type.Params != nil {
+				for _, p := range fd.Type.Params.List {
+					isSlice := false
+					switch t := p.Type.(type) {
+					case *ast.ArrayType:
+						isSlice = t.Len == nil
+					case *ast.SelectorExpr:
+						isSlice = t.Sel.Name == "Labels"
+					case *ast.Ellipsis:
+						isSlice = true
+					}
+					if isSlice {
+						for _, n := range p.Names {
+							alias[n.Name] = true
+						}
+					}
+				}
+			}
+			ast.Inspect(fd.Body, func(n ast.Node) bool {
+				as, ok := n.(*ast.AssignStmt)
+				if !ok || len(as.Lhs) != len(as.Rhs) {
+					return true
+				}
+				for i, r := range as.Rhs {
+					id, ok := as.Lhs[i].(*ast.Ident)
+					if !ok {
+						continue
+					}
+					switch v := r.(type) {
+					case *ast.SelectorExpr, *ast.IndexExpr:
+						alias[id.Name] = true
+					case *ast.Ident:
+						if v.Name != "nil" {
+							alias[id.Name] = true
+						}
+					case *ast.SliceExpr:
+						if base, isId := v.X.(*ast.Ident); !v.Slice3 && !(isId && base.Name == id.Name) {
+							alias[id.Name] = true
+						}
+					}
+				}
+				return true
+			})
+			selfAppends := map[*ast.CallExpr]bool{}
+			ast.Inspect(fd.Body, func(n ast.Node) bool {
+				as, ok := n.(*ast.AssignStmt)
+				if !ok || len(as.Lhs) != len(as.Rhs) {
+					return true
+				}
+				for i, r := range as.Rhs {
+					if c, ok := r.(*ast.CallExpr); ok && exprString(c.Fun) == "append" && len(c.Args) > 0 {
+						if exprString(as.Lhs[i]) == exprString(c.Args[0]) {
+							if id, isId := c.Args[0].(*ast.Ident); !isId || !alias[id.Name] {
+								selfAppends[c] = true
+							}
+						}
+					}
+				}
+				return true
+			})
+			ast.Inspect(fd.Body, func(n ast.Node) bool {
+				c, ok := n.(*ast.CallExpr)
+				if !ok || exprString(c.Fun) != "append" || len(c.Args) < 2 || selfAppends[c] {
+					return true
+				}
+				safe := false
+				switch a := c.Args[0].(type) {
+				case *ast.SliceExpr:
+					safe = a.Slice3
+					if bl, ok := a.High.(*ast.BasicLit); ok && bl.Value == "0" && a.Low == nil {
+						safe = true // x[:0]: reuse of a buffer the function was given for that purpose
+					}
+				case *ast.Ident:
+					safe = a.Name == "nil"
+				case *ast.CallExpr:
+					safe = exprString(a.Fun) == "make" || strings.HasSuffix(exprString(a.Fun), ".Copy")
+					if _, isArr := a.Fun.(*ast.ArrayType); isArr && len(a.Args) == 1 && exprString(a.Args[0]) == "nil" {
+						safe = true // []T(nil)
+					}
+				case *ast.CompositeLit:
+					safe = true
+				}
+				if !safe {
+					foreign = append(foreign, fmt.Sprintf("%s:%s:append(%s, ..)", f.path, fd.Name.Name, render(c.Args[0])))
+				}
+				return true
+			})
+		}
+	}
+	sort.Strings(foreign)
+	w("def foreignAppends : List String := %s", lstr(foreign))
+	// dropLabel / DropMetricName edit their argument in place: what every caller passes
+	var dropArgs []string
+	for _, f := range files {
+		for _, d := range f.ast.Decls {
+			fd, ok := d.(*ast.FuncDecl)
+			if !ok || fd.Body == nil {
+				continue
+			}
+			ast.Inspect(fd.Body, func(n ast.Node) bool {
+				c, ok := n.(*ast.CallExpr)
+				if !ok || len(c.Args) == 0 {
+					return true
+				}
+				fn := exprString(c.Fun)
+				if fn == "dropLabel" || fn == "DropMetricName" || fn == "function.DropMetricName" {
+					dropArgs = append(dropArgs, fmt.Sprintf("%s:%s:%s(%s)", f.path, fd.Name.Name, fn, argString(c.Args[0])))
+				}
+				return true
+			})
+		}
+	}
+	sort.Strings(dropArgs)
+	w("def dropLabelCalls : List String := %s", lstr(dropArgs))
+	// result assembly in Exec: how the point slices of the result are written, what goes back to
+	// the pool, and what Close / Cancel call
+	var pointsWrites, poolPuts, closeCalls []string
+	if ef != nil {
+		for _, d := range ef.Decls {
+			fd, ok := d.(*ast.FuncDecl)
+			if !ok || fd.Body == nil || fd.Recv == nil || !strings.Contains(render(fd.Recv.List[0].Type), "compatibilityQuery") {
+				continue
+			}
+			switch fd.Name.Name {
+			case "Exec":
+				ast.Inspect(fd.Body, func(n ast.Node) bool {
+					switch v := n.(type) {
+					case *ast.AssignStmt:
+						for i, l := range v.Lhs {
+							if !strings.HasSuffix(render(l), ".Points") || i >= len(v.Rhs) {
+								continue
+							}
+							kind := "other:" + render(v.Rhs[i])
+							if c, ok := v.Rhs[i].(*ast.CallExpr); ok {
+								switch exprString(c.Fun) {
+								case "make":
+									kind = "make"
+								case "append":
+									if len(c.Args) == 2 && render(c.Args[0]) == render(l) {
+										if _, lit := c.Args[1].(*ast.CompositeLit); lit && !c.Ellipsis.IsValid() {
+											kind = "append-literal"
+										}
+									}
+								}
+							}
+							pointsWrites = append(pointsWrites, kind)
+						}
+					case *ast.CallExpr:
+						fn := render(v.Fun)
+						if strings.HasSuffix(fn, ".PutStepVector") || strings.HasSuffix(fn, ".PutVectors") || strings.HasSuffix(fn, ".Put") {
+							for _, a := range v.Args {
+								poolPuts = append(poolPuts, fn[strings.LastIndex(fn, ".")+1:]+"("+render(a)+")")
+							}
+						}
+					}
+					return true
+				})
+			case "Close", "Cancel":
+				ast.Inspect(fd.Body, func(n ast.Node) bool {
+					if c, ok := n.(*ast.CallExpr); ok {
+						closeCalls = append(closeCalls, fd.Name.Name+":"+render(c.Fun))
+					}
+					return true
+				})
+			}
+		}
+	}
+	sort.Strings(closeCalls)
+	w("def execPointsWrites : List String := %s", lstr(pointsWrites))
+	w("def execPoolPuts : List String := %s", lstr(poolPuts))
+	w("def closeCancelCalls : List String := %s", lstr(closeCalls))
 
 	w("\nend PromqlVerif.Gen")
 	if *out == "" {
